@@ -3,7 +3,7 @@
 set -u
 P=$1; F=$2; PAT=$3; REP=$4
 S=/tmp/s/repo
-mkdir -p /tmp/s; rsync -a --delete --exclude target --exclude .git /repo/ $S/
+mkdir -p /tmp/s; rsync -a --delete --exclude target --exclude .git --out-format='%n' /repo/ $S/ | while read f; do [ -f "$S/$f" ] && touch "$S/$f"; done   # restored files get a fresh mtime, or cargo keeps the previous mutant's build
 python3 - "$S/$F" "$PAT" "$REP" <<'PY'
 import re,sys
 p,pat,rep=sys.argv[1:4]
